@@ -359,6 +359,90 @@ def scenario(exe, r, run, stats, witness):
     return w, sig
 
 
+def tcp_case(exe, r, run, stats, witness):
+    """observers on TCP connections: notifications in order while the connection lives; the
+    connection going away (peer closes) is session loss - the observation ends with it, later
+    changes notify the remaining observers only, and a new connection registers afresh"""
+    w = world.World(exe, seed=r.getrandbits(30))
+    witness["script"] = w.script
+    tcp_ep = "10.0.0.1:5683"
+    w.cmd("node 0")
+    w.cmd("ep 0 tcp %s" % tcp_ep)
+    w.cmd("ep 0 udp %s" % EP)
+    w.cmd("res 0 %s body=counter obs=1" % b"o".hex())
+    nconn = r.choice([1, 2, 3])
+    conns = {}
+    counter = 0
+    out = {}          # conn -> bytes the server wrote
+
+    def feed(evs):
+        for e in evs:
+            if e["e"] == "swrite":
+                out[e["conn"]] = out.get(e["conn"], b"") + bytes.fromhex(e["b"])
+        return evs
+
+    def notifs(c):
+        msgs, _rest = cw.split_tcp_stream(out.get(c, b""))
+        res = []
+        for raw in msgs:
+            try:
+                m = cw.decode(raw, "tcp")
+            except Exception:
+                continue
+            o6 = [v for n, v in m["options"] if n == 6]
+            if m["code"] == 0x45 and o6 and m["token"] == conns[c]["tok"]:
+                res.append((int.from_bytes(o6[0], "big") if o6[0] else 0, m["payload"]))
+        return res
+
+    for c in range(nconn):
+        conn = 70 + c
+        tok = bytes([0xD0 + c, 1])
+        conns[conn] = {"tok": tok, "open": True, "closed_after": None}
+        feed(w.cmd("tcp_accept %s 10.0.66.%d:5000 conn=%d" % (tcp_ep, c + 1, conn)))
+        reg = cw.encode(cw.msg(0xE1), "tcp") + cw.encode(
+            cw.msg(1, token=tok, options=[(6, b""), (11, b"o")]), "tcp")
+        feed(w.cmd("stream %d 0 %s" % (conn, reg.hex())))
+    for step in range(r.choice([4, 8, 15])):
+        x = r.random()
+        live = [c for c in conns if conns[c]["open"]]
+        if x < 0.6 or not live:
+            counter += 1
+            feed(w.cmd("notify 0 o"))
+            feed(w.cmd("prepare 0"))
+        elif x < 0.8:
+            c = r.choice(live)
+            conns[c]["open"] = False
+            conns[c]["closed_after"] = len(notifs(c))
+            conns[c]["len_at_close"] = len(out.get(c, b""))
+            feed(w.cmd("stream_close %d 0" % c))
+            feed(w.cmd("prepare 0"))
+            stats["tcp_sessions_lost"] = stats.get("tcp_sessions_lost", 0) + 1
+        else:
+            feed(w.cmd("advance %d" % r.choice([10, 3000, 400000])))
+            feed(w.cmd("prepare 0"))
+    counter += 1
+    feed(w.cmd("notify 0 o"))
+    feed(w.cmd("prepare 0"))
+    feed(w.cmd("advance 5000"))
+    feed(w.cmd("prepare 0"))
+    for c, st in conns.items():
+        ns = notifs(c)
+        stats["tcp_notifications"] = stats.get("tcp_notifications", 0) + len(ns)
+        wv = dict(witness, conn=c, token=st["tok"].hex())
+        vals = [v for v, _ in ns]
+        if any(not serial_gt(b, a) for a, b in zip(vals[1:], vals[2:])):
+            run.violation("observe-value-not-increasing/tcp", wv, "Observe values %r" % vals)
+        if st["open"]:
+            if not ns or ns[-1][1] != str(counter).encode():
+                run.violation("last-state-not-notified/tcp", wv,
+                              "connection open, resource state %d, last notification %r" %
+                              (counter, ns[-1] if ns else None))
+        elif len(out.get(c, b"")) != st["len_at_close"]:
+            run.violation("notification-after-deregistration/session-loss", wv,
+                          "bytes written to the connection after the peer had closed it")
+    return w, ("tcp", nconn, sum(1 for c in conns.values() if not c["open"]))
+
+
 def work(job):
     items, exe = job
     run = common.Run("C11", "quick", "exploration")
@@ -370,7 +454,10 @@ def work(job):
         witness = {"item": it, "seed": common.seed()}
         w = None
         try:
-            w, sig = scenario(exe, r, run, stats, witness)
+            if it % 10 == 9:
+                w, sig = tcp_case(exe, r, run, stats, witness)
+            else:
+                w, sig = scenario(exe, r, run, stats, witness)
             sigs.add(sig)
             world.teardown_check(run, "C11", w, witness)
         except world.WorldCrash as e:
@@ -389,6 +476,7 @@ def main(tier):
     run.rule = ("histories of register / change (bursts between I/O steps) / cancel by Observe=1 / "
                 "Reset to the latest or to an older notification / silent peer (failed CON "
                 "notification) / resource deletion / re-registration with the same or a new token "
+                "(one case in ten: 1-3 observers on TCP connections, some of which the peer closes - session loss) "
                 "by 1..4 raw observers on 3 resources (half of the runs a fourth whose state is larger than "
                 "one block: notifications carry block 0, observers fetch the rest) with and without query (default and "
                 "NOTIFY_CON mode), with loss and duplication of datagrams and virtual-time jumps; "
@@ -416,4 +504,6 @@ def main(tier):
     run.require("registrations", stats.get("registrations", 0), 500)
     run.require("still_registered", stats.get("still_registered", 0), 100)
     run.require("bodies_collected_block_by_block", stats.get("bodies_collected", 0), 100)
+    run.require("tcp_sessions_lost", stats.get("tcp_sessions_lost", 0), 20)
+    run.require("tcp_notifications", stats.get("tcp_notifications", 0), 100)
     return run.finish()
